@@ -4200,6 +4200,12 @@ bool llbuild::buildsystem::pathIsPrefixedByPath(std::string path,
                std::string::npos;
   }
   auto res = std::mismatch(prefixPath.begin(), prefixPath.end(), path.begin());
+  // If `prefixPath` has been exhausted and itself ends in a separator (e.g.
+  // "/foo/" or "/"), everything that follows in `path` lies beneath it.
+  if (res.first == prefixPath.end() && !prefixPath.empty() &&
+      pathSeparators.find(prefixPath.back()) != std::string::npos) {
+    return true;
+  }
   // Check if `prefixPath` has been exhausted or just a separator remains.
   bool isPrefix = res.first == prefixPath.end() ||
                   (pathSeparators.find(*(res.first++)) != std::string::npos);
